@@ -434,6 +434,17 @@ func programs(thorough bool) []Program {
 	// MaxJob 1 forces the recursive (no free producer slot) path
 	p = Program{Name: "maxjob1", Files: []string{"a", "d/b", "d/e/f"}, Filter: "none", Producers: 1, Consumers: 1, MaxJob: 1, ChanSize: 1000, Bound: 1}
 	add(p)
+	// a chain 150 directories deep with one file per level ("all tree shapes including deep": no level is
+	// too deep to be listed), default schedule only; one producer = the recursive path all the way down
+	var chain []string
+	dir := ""
+	for i := 0; i < 150; i++ {
+		dir += fmt.Sprintf("d%d/", i)
+		chain = append(chain, dir+"f")
+	}
+	for _, pc := range [][2]int{{1, 1}, {2, 1}} {
+		add(Program{Name: "chain150", Files: chain, Filter: "none", Producers: pc[0], Consumers: pc[1], MaxJob: 2, ChanSize: 1000, Bound: 0})
+	}
 	return ps
 }
 
@@ -450,6 +461,10 @@ func run(c *fw.Ctx) {
 			continue // whole programs per worker: the happens-before cache is per program
 		}
 		opt := explore.Options{Bound: p.Bound, Focus: focus, NoShard: true, HBR: true, Deadline: c.Deadline, MaxSteps: 4000}
+		if p.Name == "chain150" {
+			opt.MaxSteps = 400000
+			opt.OnlyKinds = []int{vsched.KindMap} // the default schedule only (no map iteration in these packages)
+		}
 		b := body(p, &o)
 		st, err := explore.Explore(opt, b, func(x *explore.Exec) bool {
 			c.SetAdd("outcomes", fmt.Sprintf("%s|f=%v d=%v e=%d", p.Name, sorted(o.files), sorted(o.dirs), len(o.errs)))
@@ -503,6 +518,9 @@ func replay(w json.RawMessage) (*fw.Violation, error) {
 	}
 	var o obs
 	opt := explore.Options{Bound: -1, Focus: focus, MaxSteps: 4000}
+	if wit.Program.Name == "chain150" {
+		opt.MaxSteps = 400000
+	}
 	x, err := explore.RunOnce(&opt, wit.Choices, body(wit.Program, &o))
 	if err != nil {
 		return nil, err
